@@ -47,6 +47,17 @@ def run(run, args):
     if rc != 0:
         violation(run, {"broken": "harness `conv` failed", "detail": err[-2000:]}, nofail=True)
     recs = read_jsonl(out)
+    # every generated composition has at most `maxarr` isotope arrangements, and the convolution returns at most one peak per
+    # arrangement: a longer output is wrong by counting alone (and would make the case file too large to evaluate)
+    over = [r for r in recs if r["out"] != "panic" and len(r["out"]) > maxarr]
+    if over:
+        r = dict(over[0]); k = len(r["out"]); r["out"] = r["out"][:20]
+        prev = [{q: x[q] for q in ("id", "ents", "thr", "charge")} | {"n_peaks": (len(x["out"]) if x["out"] != "panic" else "panic")} for x in recs if x["id"] < r["id"]][-4:]
+        run.oblige("no output has more peaks than the composition has isotope arrangements", False, "%d outputs" % len(over))
+        violation(run, {"failing_input": r, "n_peaks_returned": k, "bound_on_arrangements": maxarr, "calls_before_it_in_this_process": prev,
+                        "what": "isotopic_convolution returned %d peaks (first 20 shown) for a composition with at most %d isotope arrangements: peaks that are "
+                                "no isotopologue of the composition (the calls made earlier in the same process are listed: the function must not depend on them)" % (k, maxarr),
+                        "all_failing_ids": [x["id"] for x in over][:40]})
     res, errors = eval_shards("C11", HEADER, [case_term(r) for r in recs], "ccase", EVALS, shard=6, timeout=1500)
     by_id = {r["id"]: r for r in recs}
     ids = [r["id"] for r in recs]
